@@ -50,7 +50,7 @@ func (w *c20Server) Run(ctx context.Context) error {
 var c20Mu sync.Mutex // http.DefaultTransport and the verifhook ServeHTTP seam are process-global
 
 func (c20) Run(e *Env) {
-	e.ProbeDecl("invocation", "invocation-without-data", "upstream-slow", "upstream-5xx-then-ok", "upstream-abandoned", "telemetry-other-records", "telemetry-init-runtime-done", "datapoint-during-init", "startup-failure", "shutdown", "flush-split-into-several-requests", "datapoint-holding-slot-at-flush", "datapoint-released-after-flush-began")
+	e.ProbeDecl("invocation", "invocation-without-data", "upstream-slow", "upstream-5xx-then-ok", "upstream-abandoned", "telemetry-other-records", "telemetry-init-runtime-done", "datapoint-during-init", "startup-failure", "shutdown", "flush-split-into-several-requests", "datapoint-holding-slot-at-flush", "datapoint-released-after-flush-began", "datapoint-with-non-utf8-tag")
 	c20Mu.Lock()
 	defer c20Mu.Unlock()
 	fab := NewFabric()
@@ -307,6 +307,15 @@ func (c20) Run(e *Env) {
 			if svc := []string{"", "a", "b", "c"}[e.Draw(4)]; svc != "" {
 				line += "|#service:" + svc
 			}
+		}
+		if e.Chance(1, 8) {
+			// a tag value that is not valid UTF-8 (the parser passes such bytes on)
+			if strings.Contains(line, "|#") {
+				line += ",path:/caf\xe9"
+			} else {
+				line += "|#path:/caf\xe9"
+			}
+			e.Probe("datapoint-with-non-utf8-tag")
 		}
 		if len(yg.sites) > 0 {
 			yg.off.Store(!e.Chance(1, 3)) // only some datapoints are caught in the middle of their merge
